@@ -3,6 +3,7 @@ package pongo2
 import (
 	"fmt"
 	"math"
+	"math/big"
 	"reflect"
 	"sort"
 	"strconv"
@@ -642,23 +643,51 @@ func (sk sortedKeys) Less(i, j int) bool {
 }
 
 // lessValues is the order `sorted` and the iteration over maps use: numbers come first,
-// in numerical order (two integers are compared as integers), everything else follows
-// ordered by its text; values that print alike (structs, arrays) are told apart by their
-// content, so that the order does not depend on the order the values arrived in.
+// in numerical order, everything else follows ordered by its text; values that print
+// alike (structs, arrays; 1 and 1.0) are told apart by their content, so that the order
+// does not depend on the order the values arrived in.
+//
+// Numbers are compared exactly (math/big): through int or float64 distinct numbers tie
+// (unsigned ones no int holds; integers beyond 2^53 next to a float), and "neither is
+// less" is then not transitive — the result of the sort, and with it the order a map is
+// iterated in, would depend on Go's random map order. NaN sorts before all numbers.
 func lessValues(vi, vj *Value) bool {
-	switch {
-	case vi.IsInteger() && vj.IsInteger():
-		return vi.Integer() < vj.Integer()
-	case vi.IsNumber() && vj.IsNumber():
-		return vi.Float() < vj.Float()
-	case vi.IsNumber() != vj.IsNumber():
-		return vi.IsNumber()
+	ni, nj := vi.IsNumber(), vj.IsNumber()
+	if ni != nj {
+		return ni
+	}
+	if ni {
+		bi, bj := bigNumber(vi), bigNumber(vj)
+		if (bi == nil) != (bj == nil) {
+			return bi == nil // NaN first
+		}
+		if bi != nil {
+			if c := bi.Cmp(bj); c != 0 {
+				return c < 0
+			}
+		}
 	}
 	si, sj := vi.String(), vj.String()
 	if si != sj {
 		return si < sj
 	}
-	return fmt.Sprintf("%v", vi.Interface()) < fmt.Sprintf("%v", vj.Interface())
+	return fmt.Sprintf("%T %v", vi.Interface(), vi.Interface()) < fmt.Sprintf("%T %v", vj.Interface(), vj.Interface())
+}
+
+// bigNumber is the exact value of a number (nil for NaN).
+func bigNumber(v *Value) *big.Float {
+	rv := v.getResolvedValue()
+	switch rv.Kind() {
+	case reflect.Int, reflect.Int8, reflect.Int16, reflect.Int32, reflect.Int64:
+		return new(big.Float).SetInt64(rv.Int())
+	case reflect.Uint, reflect.Uint8, reflect.Uint16, reflect.Uint32, reflect.Uint64:
+		return new(big.Float).SetUint64(rv.Uint())
+	}
+	f := v.Float()
+	if math.IsNaN(f) {
+		return nil
+	}
+	return new(big.Float).SetFloat64(f)
 }
 
 func (sk sortedKeys) Swap(i, j int) {
